@@ -244,7 +244,7 @@ class X:
         if e.id in self.module.imports:
             return Opaque('import:%s' % '.'.join(x for x in self.module.imports[e.id] if x))
         if e.id in ('int', 'float', 'str', 'len', 'range', 'tuple', 'list', 'dict', 'abs', 'min', 'max', 'sum',
-                    'bool', 'enumerate', 'zip', 'any', 'all', 'isinstance', 'sorted', 'set', 'map', 'print',
+                    'bool', 'enumerate', 'zip', 'any', 'all', 'isinstance', 'sorted', 'set', 'map', 'print', 'divmod',
                     'ValueError', 'TypeError', 'NotImplementedError', 'KeyError'):
             return Opaque('builtin:' + e.id)
         raise Unsupported('name %s (line %d)' % (e.id, e.lineno))
@@ -667,6 +667,15 @@ class X:
                 k = (lambda x, y: z3.Or(B(x), B(y))) if isinstance(op, (ast.Add, ast.BitOr)) else (lambda x, y: z3.And(B(x), B(y)))
                 return self.lift(k, a, b, dtype='bool')
             r = self.lift(lambda x, y: self.bin(op, x, y, self.lazy_st(), node), a, b)
+            if isinstance(a, Arr) and isinstance(b, Arr) and a.dtype == 'uint8' and b.dtype == 'uint8' and isinstance(op, (ast.Add, ast.Mult, ast.Sub)):
+                # A-numpy: arithmetic on two uint8 arrays wraps modulo 256
+                f0 = r.f
+                r = Arr(r.shape, lambda *i: Z(f0(*i)) % 256, 'uint8', 'fresh', a.sparse and b.sparse)
+            elif isinstance(a, Arr) and isinstance(b, Arr):
+                r.dtype = a.dtype if a.dtype == b.dtype else ('int64' if 'int64' in (a.dtype, b.dtype) else a.dtype)
+                r.sparse = a.sparse and b.sparse
+            elif isinstance(a, Arr):
+                r.sparse = a.sparse if isinstance(op, (ast.Mod, ast.Mult)) else False
             if isinstance(op, (ast.Div, ast.Mod, ast.FloorDiv)):
                 self.eager(r.shape, r.f, st)
             return r
@@ -999,6 +1008,8 @@ class X:
             return B(red_const(args[0])) if isinstance(args[0], Red) else B(args[0])
         if name == 'str':
             return S(to_S(args[0]))
+        if name == 'divmod':
+            return T([self.bin(ast.FloorDiv(), args[0], args[1], st, node), self.bin(ast.Mod(), args[0], args[1], st, node)])
         if name == 'abs':
             zv = Z(args[0])
             return z3.If(zv >= 0, zv, -zv)
@@ -1047,7 +1058,7 @@ class X:
             tn = t.tag.split(':')[-1] if isinstance(t, Opaque) else None
             if tn is None and isinstance(t, T):
                 return z3.Or([B(self.builtin(tag, [v, x], kwargs, st, node)) for x in t.items])
-            kinds = {'list': lambda x: isinstance(x, T) and x.kind == 'list', 'tuple': lambda x: isinstance(x, T) and x.kind == 'tuple',
+            kinds = {'list': lambda x: (isinstance(x, T) and x.kind == 'list') or (isinstance(x, Arr) and getattr(x, 'pylist', False)), 'tuple': lambda x: isinstance(x, T) and x.kind == 'tuple',
                      'dict': lambda x: isinstance(x, (D, M)), 'str': lambda x: isinstance(x, (E, S, str)),
                      'int': lambda x: isinstance(x, (int, np.integer)) or (isinstance(x, z3.ArithRef) and x.is_int()),
                      'float': lambda x: isinstance(x, float) or (isinstance(x, z3.ArithRef) and x.is_real())}
@@ -1099,6 +1110,8 @@ class X:
         return T(items, 'list')
 
     def numpy(self, fn, args, kwargs, st, node=None):
+        if any(k_ in kwargs for k_ in ('out', 'where', 'casting', 'order')):
+            raise Unsupported('np.%s with out= / where= (in-place ufunc semantics are outside the subset)' % fn)
         un = {'logical_not': lambda x: z3.Not(B(x))}
         bi = {'add': ast.Add(), 'subtract': ast.Sub(), 'multiply': ast.Mult(), 'mod': ast.Mod()}
         if fn in bi:
@@ -1113,8 +1126,14 @@ class X:
             if isinstance(v, T):
                 return T(v.items, 'vec')
             if isinstance(v, Arr):
-                return Arr(v.shape, v.f, v.dtype, 'fresh', v.sparse)
+                dt = kwargs.get('dtype')
+                dts = conc(dt) if dt is not None and not isinstance(dt, Opaque) else None
+                if dts == 'uint8' and v.dtype != 'uint8':
+                    return Arr(v.shape, lambda *i: Z(v.f(*i)) % 256, 'uint8', 'fresh', False)
+                return Arr(v.shape, v.f, v.dtype, 'fresh', False)
             return v
+        if fn == 'reshape':
+            return self.reshape(args[0], args[1])
         if fn in ('logical_and', 'logical_or'):
             k = (lambda x, y: z3.And(B(x), B(y))) if fn == 'logical_and' else (lambda x, y: z3.Or(B(x), B(y)))
             return self.lift(k, args[0], args[1], dtype='bool')
@@ -1230,7 +1249,45 @@ class X:
         h = self.intr.get('arr.' + name)
         if h is not None:
             return h(self, st, a, args, kwargs)
+        if name == 'reshape':
+            return self.reshape(a, args[0] if len(args) == 1 else T(list(args)))
+        if name == 'toarray':
+            return Arr(a.shape, a.f, a.dtype, 'fresh', False)
+        if name == 'dot':
+            return self.dot(a, args[0], st)
         raise Unsupported('ndarray.%s' % name)
+
+    def reshape(self, a, shp):
+        if not isinstance(a, Arr):
+            raise Unsupported('reshape of %s' % type(a).__name__)
+        new = tuple(shp.items) if isinstance(shp, T) else (shp,)
+        if a.rank == 1 and len(new) == 2 and conc(new[0]) == 1:
+            return Arr((1, new[1]), lambda r, c: a.f(c), a.dtype, a.owner, a.sparse)
+        if a.rank == 2 and len(new) == 1:
+            # (1, m) -> (m,)  or  (m, 1) -> (m,): decided by which extent is 1 (the other case is excluded by a side obligation)
+            r0, c0 = conc(a.shape[0]), conc(a.shape[1])
+            if r0 == 1:
+                return Arr((new[0],), lambda i: a.f(0, i), a.dtype, a.owner, a.sparse)
+            if c0 == 1:
+                return Arr((new[0],), lambda i: a.f(i, 0), a.dtype, a.owner, a.sparse)
+        if a.rank == len(new):
+            return Arr(new, a.f, a.dtype, a.owner, a.sparse)
+        raise Unsupported('reshape %s -> %s' % (a.shape, new))
+
+    DOTS = []
+
+    def dot(self, a, b, st):
+        """A-numpy / A-scipy: (a.dot(b))[r, c] = (sum_k a[r,k] * b[k,c]) wrapped to the dtype.  The sum is an uninterpreted integer
+        DOT_j(r, c); the pair of operands is recorded so that contracts can speak about the summand and its range."""
+        if not (isinstance(a, Arr) and isinstance(b, Arr) and a.rank == 2 and b.rank == 2):
+            raise Unsupported('dot of non-matrices')
+        j = len(X.DOTS)
+        F = z3.Function('DOT_%d' % j, z3.IntSort(), z3.IntSort(), z3.IntSort())
+        X.DOTS.append(dict(F=F, a=a, b=b, inner=a.shape[1]))
+        dt = 'uint8' if a.dtype == 'uint8' and b.dtype == 'uint8' else ('int64' if 'int64' in (a.dtype, b.dtype) else a.dtype)
+        if dt == 'uint8':
+            return Arr((a.shape[0], b.shape[1]), lambda r, c: F(Z(r), Z(c)) % 256, dt, 'fresh', a.sparse or b.sparse)
+        return Arr((a.shape[0], b.shape[1]), lambda r, c: F(Z(r), Z(c)), dt, 'fresh', a.sparse or b.sparse)
 
     # comprehensions --------------------------------------------------------------
     def ev_ListComp(self, e, env, st):
@@ -1540,6 +1597,17 @@ class X:
             self.assign(s.target, self.ev(s.value, env, st), env, st)
 
     def st_AugAssign(self, s, env, st):
+        if isinstance(s.target, ast.Attribute) and s.target.attr == 'data':
+            base = self.ev(s.target.value, env, st)
+            if isinstance(base, Arr) and base.sparse:
+                # stored values of a sparse matrix updated element-wise; implicit zeros stay zero only for ops with f(0)=0 (checked for % and *)
+                if not isinstance(s.op, (ast.Mod, ast.Mult)):
+                    raise Unsupported('in-place %s on sparse data' % type(s.op).__name__)
+                v = self.ev(s.value, env, st)
+                new = self.bin(s.op, base, v, st, s)
+                new = Arr(new.shape, new.f, base.dtype, base.owner, True)
+                self._store_back(s.target.value, new, env, st)
+                return
         cur = self.ev(s.target, env, st)
         v = self.ev(s.value, env, st)
         if isinstance(cur, T) and isinstance(s.op, ast.Add) and isinstance(v, T):
@@ -1570,8 +1638,20 @@ class X:
         c = B(self.ev(s.test, env, st))
         st.add_raise(z3.Not(c), 'AssertionError', s.lineno)
 
+    prune_with_solver = False
+
     def st_If(self, s, env, st):
         c = z3.simplify(B(self.ev(s.test, env, st)))
+        if self.prune_with_solver and not z3.is_true(c) and not z3.is_false(c):
+            # infeasible paths pruned by a solver call under the current path condition
+            sol = z3.Solver(); sol.set('timeout', 2000); sol.add(st.live)
+            sol.push(); sol.add(c)
+            if sol.check() == z3.unsat:
+                c = FALSE
+            else:
+                sol.pop(); sol.add(z3.Not(c))
+                if sol.check() == z3.unsat:
+                    c = TRUE
         if z3.is_true(c):
             return self.block(s.body, env, st)
         if z3.is_false(c):
